@@ -245,7 +245,6 @@ Record os : Type := mkOs {
 Definition bad (o : os) : os :=
   mkOs (o_durs o) (o_starts o) (o_toks o) (o_dropped o) (o_synced o) (o_last o) false.
 
-Definition eff_dur (dur : Z) : Z := dur.
 
 Definition oracle_ev (o : os) (e : tev) : os :=
   match e with
